@@ -62,3 +62,14 @@ claim("C09", "other",
       "dimensionless base units (radian) count as the number 1.",
       "SMT (QF_LRA) feasibility over all declarations + unsat cores; symbolic in_unit for connectivity",
       "DESIGN.md 4/C09", "oracle")
+
+claim("C07", "other",
+      "Every path of the real in_unit, +, -, ==, <, <=, >, >= run on symbolic magnitudes over the pair "
+      "families (named pairs, compound family, and a fresh family of unconvertible / partially connected / "
+      "product-defined units) must end in an allowed outcome for every magnitude on the path; the same runs "
+      "in interpreters started with `python -O` must have the same outcome regions, and z3 decides "
+      "forall x,y that returned values / truth values are equal in both modes.",
+      "The planner's branching on unit structure is enumerated (pairs), not symbolic; exact reals over "
+      "the code's binary constants; quick tier samples the named pairs (every 2nd / 16th).",
+      "shadow-symbolic execution in two interpreter modes + z3 equivalence of shipped terms",
+      "DESIGN.md 4/C07", "symnum")
